@@ -90,6 +90,10 @@ type shape struct {
 	objForms [][]form      // form assignments used by the "objects" slice (first = all canonical)
 	attrVars []attrVariant // sizes/layouts of the .gitattributes files explored by the "attrsize" slice (nil: none)
 	note     string
+	// index-state family (c13_index_verif_test.go): one HEAD, many staged states
+	family   string                      // "" = history shapes with the standard slices; "index" = index-state shapes with their own slices
+	wtKeep   []string                    // paths removed from the index whose work-tree file stays (git rm --cached); content = HEAD's blob
+	diffWant func(assign []form) []string // expected `git diff-index -M --cached HEAD` entries (self-check of the construction), nil: not checked
 }
 
 const attrLine = " filter=lfs diff=lfs merge=lfs -text\n"
@@ -374,6 +378,7 @@ func shapes() []shape {
 		inclCfgs: []exclSpec{{include: "/c.bin", incPaths: set("c.bin")}, {pattern: "/a.bin", paths: set("a.bin"), include: "/b.bin", incPaths: set("b.bin")}},
 		objForms: [][]form{allCanon(3), {fRaw, fCRLF, fCanon}},
 	})
+	r = append(r, indexShapes()...)
 	for i := range r {
 		if len(r[i].objForms[0]) != r[i].nslots {
 			panic("shape table: objForms")
@@ -511,6 +516,19 @@ func buildBase(w *gitx.World, sh *shape, assign []form, av attrVariant, info *ba
 		gitx.PutObject(lfsdir, contentData[c])
 	}
 	os.MkdirAll(filepath.Join(lfsdir, "tmp"), 0755)
+	// `git rm --cached`: the file left the index but is still in the work tree (untracked now), holding HEAD's blob
+	for _, p := range sh.wtKeep {
+		found := false
+		for _, e := range sh.commits[len(sh.commits)-1] {
+			if e.path == p {
+				gitx.WriteFile(dir, p, e.blob(assign, av), 0644)
+				found = true
+			}
+		}
+		if !found {
+			panic("shape table: wtKeep path " + p + " is not in HEAD")
+		}
+	}
 	// ---- self-check of the construction (tool error when it fails, never a violation)
 	for i, t := range sh.commits {
 		checkTree(w, dir, info.commits[i], t, assign, av, fmt.Sprintf("commit %d", i))
@@ -564,6 +582,38 @@ func buildBase(w *gitx.World, sh *shape, assign []form, av attrVariant, info *ba
 			panic(fmt.Sprintf("base %s: path %q filter=%q but shape says tracked=%v", filepath.Base(dir), e.path, attr[e.path], want))
 		}
 	}
+	// the staged state is what the table claims it is, in the terms git-lfs' index scan sees it (`git diff-index -M --cached HEAD`)
+	if sh.diffWant != nil {
+		out = must(w.Git(dir, "diff-index", "-M", "--cached", "--name-status", "-z", "HEAD"), "diff-index")
+		f := strings.Split(out, "\x00")
+		var got []string
+		for i := 0; i+1 < len(f); {
+			st := f[i]
+			if st == "" {
+				break
+			}
+			if st[0] == 'R' || st[0] == 'C' {
+				if i+2 >= len(f) {
+					panic("diff-index: short rename record")
+				}
+				score := "<100"
+				if st[1:] == "100" {
+					score = "100"
+				}
+				got = append(got, fmt.Sprintf("%c%s %s>%s", st[0], score, f[i+1], f[i+2]))
+				i += 3
+			} else {
+				got = append(got, st+" "+f[i+1])
+				i += 2
+			}
+		}
+		want := append([]string(nil), sh.diffWant(assign)...)
+		sort.Strings(got)
+		sort.Strings(want)
+		if strings.Join(got, "|") != strings.Join(want, "|") {
+			panic(fmt.Sprintf("base %s: git diff-index -M --cached HEAD says %v, the state table says %v", filepath.Base(dir), got, want))
+		}
+	}
 }
 
 func checkTree(w *gitx.World, dir, commit string, t tree, assign []form, av attrVariant, what string) {
@@ -609,6 +659,9 @@ type expectation struct {
 	objWhy map[string]string
 	// oid -> true when an in-scope path matching lfs.fetchexclude references it as well
 	objAlsoExcluded map[string]bool
+	// oid -> true when a path matching lfs.fetchexclude in an inspected COMMIT tree references it (the class of finding-1.md:
+	// the commit scan lists every blob once, under one of its paths)
+	objExcludedInCommit map[string]bool
 	// oid -> true when a demanding (tracked, non-exempt) in-scope path lies inside lfs.fetchinclude (only used to label a miss)
 	objInsideInclude map[string]bool
 	// pointer problems
@@ -640,7 +693,7 @@ func raise(m map[string]level, why map[string]string, oid string, l level, reaso
 // Paths matching lfs.fetchexclude and index-only entries are lvMay.
 func expect(sh *shape, assign []form, info *baseInfo, rv revSpec, ex exclSpec, doObjects, doPointers bool) *expectation {
 	initContents()
-	x := &expectation{obj: map[string]level{}, objWhy: map[string]string{}, objAlsoExcluded: map[string]bool{}, objInsideInclude: map[string]bool{}, ncMust: map[string]string{}, ncMay: map[string]string{},
+	x := &expectation{obj: map[string]level{}, objWhy: map[string]string{}, objAlsoExcluded: map[string]bool{}, objExcludedInCommit: map[string]bool{}, objInsideInclude: map[string]bool{}, ncMust: map[string]string{}, ncMay: map[string]string{},
 		rawMust: map[string]bool{}, rawMay: map[string]bool{}, rawPairs: map[string]bool{}, rawIndexOnly: map[string]bool{}, ncWhy: map[string]string{}, rawWhy: map[string]string{}}
 	refsOf := func(t tree) map[string]bool {
 		m := map[string]bool{}
@@ -670,6 +723,9 @@ func expect(sh *shape, assign []form, info *baseInfo, rv revSpec, ex exclSpec, d
 				case ex.paths[e.path]:
 					// exempt: contributes nothing
 					x.objAlsoExcluded[oid] = true
+					if src == "commit" {
+						x.objExcludedInCommit[oid] = true
+					}
 				case !e.tracked:
 					raise(x.obj, x.objWhy, oid, lvMay, "untracked-pointer")
 				case baseRefs[oid]:
